@@ -813,16 +813,16 @@ func (e *Enc) loopHead(fc *fctx, l *loopInfo, guard string, st *State) (string, 
 	}
 	// implicit frame invariant (functions with a modifies clause): checked on entry
 	if fc.isTop && fc.contract != nil && fc.contract.HasMod {
-		for _, h := range sortedKeys(eff.heap) {
-			if f := e.frameFormula(fc, h, eff.heap[h], st); f != "" {
+		for _, h := range sortedKeys(eff.allHeap()) {
+			if f := e.frameFormula(fc, h, eff.allHeap()[h], st); f != "" {
 				e.oblige(guard, "inv-entry", fmt.Sprintf("%sL%d.frame.%s", fc.tag, l.idx, h), f, e.contractProps(fc.contract, "frame"), l.head.Instrs[0].Pos(), "loop frame (modifies clause)")
 			}
 		}
 	}
 	e.havocEffects(ns, eff, guard)
 	if fc.isTop && fc.contract != nil && fc.contract.HasMod {
-		for _, h := range sortedKeys(eff.heap) {
-			if f := e.frameFormula(fc, h, eff.heap[h], ns); f != "" {
+		for _, h := range sortedKeys(eff.allHeap()) {
+			if f := e.frameFormula(fc, h, eff.allHeap()[h], ns); f != "" {
 				e.assume(guard, f)
 			}
 		}
@@ -847,8 +847,8 @@ func (e *Enc) loopHead(fc *fctx, l *loopInfo, guard string, st *State) (string, 
 func (e *Enc) loopBack(fc *fctx, l *loopInfo, guard string, st *State) {
 	if fc.isTop && fc.contract != nil && fc.contract.HasMod {
 		eff := e.loopEffects(fc, l)
-		for _, h := range sortedKeys(eff.heap) {
-			if f := e.frameFormula(fc, h, eff.heap[h], st); f != "" {
+		for _, h := range sortedKeys(eff.allHeap()) {
+			if f := e.frameFormula(fc, h, eff.allHeap()[h], st); f != "" {
 				key := fmt.Sprintf("%sL%d.frame.%s", fc.tag, l.idx, h)
 				e.oblige(guard, "inv-step", fmt.Sprintf("%s#%d", key, e.ordinal(key)), f, e.contractProps(fc.contract, "frame"), l.head.Instrs[0].Pos(), "loop frame (modifies clause)")
 			}
@@ -880,6 +880,7 @@ func (e *Enc) clauseProps(fc *fctx, c *Clause) []string {
 
 // havocEffects replaces every heap array / ghost in eff by a fresh constant.
 func (e *Enc) havocEffects(st *State, eff *Effects, guard string) {
+	allocNow := e.ghostGet(st, "$alloc")
 	for _, h := range sortedKeys(eff.heap) {
 		hd := e.heaps[h]
 		if hd == nil {
@@ -887,6 +888,18 @@ func (e *Enc) havocEffects(st *State, eff *Effects, guard string) {
 			hd = e.heaps[h]
 		}
 		st.heap[h] = e.fresh(h, hd.sort)
+	}
+	// arrays written only at freshly allocated addresses: everything allocated so far keeps its contents
+	for _, h := range sortedKeys(eff.fheap) {
+		if _, general := eff.heap[h]; general {
+			continue
+		}
+		e.heapArr(h, eff.fheap[h])
+		hd := e.heaps[h]
+		old := e.heapGet(st, h, hd.elem)
+		nw := e.fresh(h, hd.sort)
+		e.assume(guard, fmt.Sprintf("(forall ((a Addr)) (! (=> (< (rootid a) %s) (= (select %s a) (select %s a))) :pattern ((select %s a))))", allocNow, nw, old, nw))
+		st.heap[h] = nw
 	}
 	for _, g := range sortedKeys(eff.ghost) {
 		old := e.ghostGet(st, g)
